@@ -197,3 +197,12 @@ func hasCanary(b []byte) bool {
 func dbOpen(dir string) (db.Database, error) { return db.NewDatabase(dir) }
 
 func dbEntity(id refctl.Identity) db.Entity { return db.NewEntity(id.ID, id.Pub, nil) }
+
+// CloseKeepNoWait stops the transport without waiting for the mDNS goodbye and keeps the directory.
+func (b *bed) CloseKeepNoWait() {
+	for _, k := range b.conns {
+		k.Close()
+	}
+	b.conns = nil
+	b.W.Stop()
+}
